@@ -10,6 +10,12 @@ Lemma names_src_ok :
   names_candidate_format = [37; 115; dot; 37; 100] (* "%s.%d" *).
 Proof. repeat split; reflexivity. Qed.
 
+(* getNewName builds a candidate with ONE Sprintf whose format is a literal of the source and whose
+   arguments are (name, i), and tests existence with os.Stat(filepath.Join(path, candidate)) /
+   os.IsNotExist: the peer's name never is (part of) a format, [candidate] below is what it computes *)
+Lemma names_getnewname_src_ok : names_getnewname_shape_ok = true.
+Proof. reflexivity. Qed.
+
 Lemma code_checks_on : chk_unmarshal code_checks = true /\ chk_create_file code_checks = true.
 Proof. destruct names_src_ok as (_ & _ & H1 & H2 & _). split; assumption. Qed.
 
